@@ -357,17 +357,65 @@ proof fn lemma_pair_count(g: AdjacencyList)
     lemma_set_pair_count(n, arcs);
 }
 
+/// s lists the sizes of the rows
+spec fn row_sizes(g: AdjacencyList, s: Seq<usize>) -> bool {
+    s.len() == g.arcs@.len() && forall|k: int| 0 <= k < s.len() ==> #[trigger] s[k] == g.arcs@[k]@.len()
+}
+
+/// the sum of the first k row sizes is `rows_sum` (list_ops) and at most k * (n - 1): a row of a well-formed list avoids its own vertex
+proof fn lemma_row_sizes_sum(g: AdjacencyList, s: Seq<usize>, k: int)
+    requires g.wf(), row_sizes(g, s), 0 <= k <= s.len(), g.ord() <= usize::MAX,
+    ensures seq_sum(s.take(k)) == rows_sum(g, k), 0 <= rows_sum(g, k) <= k * (g.ord() - 1),
+    decreases k
+{
+    if k > 0 {
+        lemma_row_sizes_sum(g, s, k - 1);
+        assert(s.take(k).drop_last() =~= s.take(k - 1));
+        assert(s.take(k).last() == s[k - 1]);
+        let n = g.arcs@.len();
+        let row = g.arcs@[k - 1]@;
+        lemma_below(n);
+        let full = below(n).remove((k - 1) as usize);
+        assert(row.subset_of(full));
+        vstd::set_lib::lemma_len_subset(row, full);
+        assert(k * (g.ord() - 1) == (k - 1) * (g.ord() - 1) + (g.ord() - 1)) by (nonlinear_arith);
+    } else {
+        assert(0 * (g.ord() - 1) == 0) by (nonlinear_arith);
+    }
+}
+
+/// the whole sum: `rows_sum`, inside usize for at most 2^32 vertices
+proof fn lemma_row_sizes(g: AdjacencyList, s: Seq<usize>)
+    requires g.wf(), row_sizes(g, s), g.ord() <= 0x1_0000_0000,
+    ensures seq_sum(s) == rows_sum(g, g.ord()), seq_sum(s) <= usize::MAX,
+{
+    let n = g.ord();
+    lemma_row_sizes_sum(g, s, n);
+    assert(s.take(n) =~= s);
+    assert(n * (n - 1) <= usize::MAX) by (nonlinear_arith) requires 1 <= n <= 0x1_0000_0000;
+}
+
 impl AdjacencyList {
-    // A (assumed contract on crate code, needed because is_tournament calls it): AdjacencyList::size == number of arcs
-    // (rustdoc of `Size::size`: "Count the arcs in the digraph").  Its body `self.arcs.iter().map(BTreeSet::len).sum()` uses
-    // `Iterator::sum`, which vstd cannot specify, so it cannot be verified here.  The count is stated as the sum of the row
-    // set sizes (`rows_sum`); lemma_arcs_upto proves that this is the number of elements of the arc relation `has`.
-    // The precondition keeps the sum inside usize (each of the n <= 2^32 rows of a well-formed list has at most n - 1 elements).
-    #[verifier::external_body]
-    fn size(&self) -> (r: usize)
-        requires self.wf(), self.ord() <= 0x1_0000_0000,
-        ensures r == rows_sum(*self, self.ord()),
-    { unimplemented!() }
+    // AdjacencyList::size (`self.arcs.iter().map(BTreeSet::len).sum()`): proved through the E12 wrapper vx_sum (prelude/iter_wrappers.rs).
+    // `order <= 2^32` keeps the sum inside usize (each of the n rows of a well-formed list has at most n - 1 elements).
+    /*@fn impl=AdjacencyList trait=Size name=size wrap=sum props=C02,C13
+    requires
+        self.wf(),
+        self.ord() <= 0x1_0000_0000,
+    ensures
+        r == rows_sum(*self, self.ord()),
+        r == arcs_upto(*self, self.ord()).len(),
+        forall|p: (int, int)| #[trigger] arcs_upto(*self, self.ord()).contains(p) == self.has(p.0, p.1),
+    @fn_start
+        broadcast use vstd::std_specs::iter::group_iter_axioms;
+        proof {
+            lemma_arcs_upto(*self, self.ord());
+            // the Map iterator is consumed in the tail expression: state the meaning of its item sequence for every candidate
+            assert forall|s: Seq<usize>| row_sizes(*self, s) implies #[trigger] seq_sum(s) == rows_sum(*self, self.ord()) && seq_sum(s) <= usize::MAX by {
+                lemma_row_sizes(*self, s);
+            }
+        }
+    @*/
 
     // `order * (order - 1)` overflows usize for order > 2^32 (a Vec of more than 2^32 BTreeSets, > 96 GiB): debug builds
     // panic, release builds wrap.  The contract is proved for order <= 2^32.
